@@ -279,9 +279,15 @@ def op_simplify(w, s):
     if got is None:
         raise V({"C15"}, "C15.simplify.unacceptable", "simplified expression is no longer accepted by the model")
     # every dropped term has |factor| <= atol: bound the change by atol * sum of spectral norms of the unit terms
+    # (terms are merged FIRST: the bound counts every distinct product once, however often it is repeated in the input)
     bound = 0.0
+    distinct = []
     for t in e.obj:
-        u = w.mat(Op(t.symbol, t.dofs, 1.0, t.qn_list))
+        t1 = t.squeeze_identity()
+        if any(t1.same_term(d) for d in distinct):
+            continue
+        distinct.append(t1)
+        u = w.mat(Op(t1.symbol, t1.dofs, 1.0, t1.qn_list))
         bound += atol * float(np.linalg.norm(u, 2))
     err = float(np.linalg.norm(got - e.shadow, 2))
     allowed = bound + TOL * max(float(np.linalg.norm(e.shadow)), sum(abs(t.factor) for t in e.obj) * 2 ** 0.5, 1e-300)
@@ -423,7 +429,11 @@ class C15Profile(session.Profile):
                         t["factor"] = [rnd.choice([1e-6, 1e-9, 1e-3]) * rnd.choice([1, -1]), 0.0]
                 return {"op": "new", "term": t, "out": w.new_handle()}
             if name == "newsum" and ops_only:
-                return {"op": "newsum", "items": [rnd.choice(ops_only) for _ in range(rnd.randint(1, 4))], "out": w.new_handle()}
+                items = [rnd.choice(ops_only) for _ in range(rnd.randint(1, 4))]
+                if rnd.random() < 0.3:
+                    items += [items[0]] * rnd.randint(1, 5)      # the same term repeated several times
+                    rnd.shuffle(items)
+                return {"op": "newsum", "items": items, "out": w.new_handle()}
             if name == "binary" and len(hs) >= 1:
                 which = rnd.choice(["add", "add", "sub", "mul", "mul", "rmul_list"])
                 a, b = rnd.choice(hs), rnd.choice(hs)
@@ -446,7 +456,13 @@ class C15Profile(session.Profile):
                     continue
                 return {"op": "product", "items": items, "out": w.new_handle()}
             if name == "simplify" and sums:
-                return {"op": "simplify", "a": rnd.choice(sums), "atol": rnd.choice([0, 0, 1e-12, 1e-7, 1e-4, 1e-2]), "out": w.new_handle()}
+                a = rnd.choice(sums)
+                atol = rnd.choice([0, 0, 1e-12, 1e-7, 1e-4, 1e-2])
+                facs = [abs(t.factor) for t in w.h[a].obj if abs(t.factor) > 0]
+                if facs and rnd.random() < 0.4:
+                    # a tolerance just above single coefficients: repeated small terms add up to something that must be kept
+                    atol = float(f"{rnd.choice(facs) * rnd.choice([1.2, 1.5, 2.5]):.4g}")
+                return {"op": "simplify", "a": a, "atol": atol, "out": w.new_handle()}
             if name == "squeeze" and ops_only:
                 return {"op": "squeeze", "a": rnd.choice(ops_only), "out": w.new_handle()}
             if name == "copy" and sums:
